@@ -172,6 +172,34 @@ def replay(ck, em, rec, rng):
                     break
             if stop:
                 break
+    # ---- GMM on a Dask array whose block lengths are unknown (lazy row filtering): same rows, NaN chunk sizes
+    if fb == 1:
+        keep = np.ones(2 * n, dtype=bool)
+        keep[1::2] = False
+        big = np.empty((2 * n, D))
+        big[::2] = X
+        big[1::2] = 1e6            # rows that the lazy mask removes
+        rows2 = tuple(2 * c for c in comp)
+        # a Dask mask: the filtered array's block lengths are unknown (NaN) until computed
+        lazy = da.from_array(big, chunks=(rows2, D))[da.from_array(keep, chunks=(rows2,))]
+        assert np.isnan(lazy.shape[0])
+        def mkg(cap, thr):
+            m = em.GMMMachine(C, max_fitting_steps=cap, convergence_threshold=thr, update_means=um, update_variances=uv,
+                              update_weights=uw)
+            m.means, m.variances, m.weights = centres + 0.3, np.ones((C, D)) * 1.5, np.array([0.4, 0.6])
+            return m
+        for cap, thr in ((2, None), (60, 1e-3)):
+            ref = mkg(cap, thr).fit(X)
+            try:
+                with dask.config.set(scheduler=sched()):
+                    got = mkg(cap, thr).fit(lazy)
+            except Exception as e:
+                bad("gmm-ml", "Raised", "unknown chunk sizes: %s: %s" % (type(e).__name__, e))
+                break
+            if any(not same(getattr(got, f), getattr(ref, f)) for f in ("means", "variances", "weights")):
+                bad("gmm-ml", "SameModel", "Dask array with unknown block lengths (lazily filtered rows), cap=%s thr=%s: "
+                    "model differs from the in-memory result" % (cap, thr))
+                break
     # ---- ISV / JFA from labelled arrays
     ubm = em.GMMMachine(C)
     ubm.means, ubm.variances, ubm.weights = centres.copy(), np.ones((C, D)) * 1.2, np.array([0.5, 0.5])
